@@ -64,7 +64,9 @@ pub fn check_history(ctx: &mut Ctx, router: &ohkami::__verif__::VerifRouter, alp
     // A request that the *parser* refuses may end the session after its error response (C02: "answered with an error response
     // or by closing the connection"; after a refusal the server cannot know where the next request starts).  Both readings are
     // admitted: the session goes on and serves the following requests as fresh ones, or it ends right after the refusal.
-    let refusal_at = hist.iter().position(|&i| matches!(alpha[i].kind, "refused" | "malformed"));
+    // (whether the parser refuses an input of the alphabet is observed on its fresh connection, not assumed: with a larger
+    // buffer `refused-head-1100` is an ordinary request)
+    let refusal_at = hist.iter().position(|&i| matches!(alpha[i].kind, "refused" | "malformed") && wire::status_of(&fresh[i]) >= 400);
     let strict = problems_of(alpha, fresh, hist, &obs, None);
     let (problems, closed_at, expected) = match (strict.0.is_empty(), refusal_at) {
         (true, _) | (false, None) => strict,
@@ -82,6 +84,19 @@ pub fn check_history(ctx: &mut Ctx, router: &ohkami::__verif__::VerifRouter, alp
         ctx.pass(&format!("len{}:{how}", hist.len()), hist.len() >= 2, collision);
     } else {
         let (cls, k) = problems[0].clone();
+        // the first violation of every class is confirmed on the real session (a model artefact must never become a verdict)
+        let first_of_class = !ctx.violations.contains_key(&format!("C05/{cls}")) && !ctx.outcomes.contains_key(&format!("model-artefact:{cls}"));
+        if first_of_class {
+            let tcp = wire::TcpBinding::new();
+            let tcp_fresh: Vec<Vec<u8>> = hist.iter().map(|&i| tcp.run(router, &[alpha[i].bytes.clone()]).map(|o| o.written).unwrap_or_default()).collect();
+            // (fresh responses indexed like the alphabet: only the entries of this history are needed)
+            let mut tf: Vec<Vec<u8>> = fresh.to_vec(); for (j, &i) in hist.iter().enumerate() { tf[i] = tcp_fresh[j].clone(); }
+            let before = ctx.violations.len();
+            let real_violates = check_history_tcp(ctx, router, &tcp, alpha, &tf, hist);
+            if !real_violates { ctx.capped = true; *ctx.outcomes.entry(format!("model-artefact:{cls}")).or_insert(0) += 1;
+                ctx.extra.insert("model_nonconforming".into(), json!(format!("history {names:?}: the model shows `{cls}`, the real session satisfies the oracle"))); return }
+            let _ = before;
+        } else if ctx.outcomes.contains_key(&format!("model-artefact:{cls}")) { *ctx.outcomes.entry(format!("model-artefact:{cls}")).or_insert(0) += 1; return }
         ctx.violation(&format!("C05/{cls}"), true, || witness(&cls, k));
     }
 }
@@ -140,7 +155,7 @@ pub fn check_history_tcp(ctx: &mut Ctx, router: &ohkami::__verif__::VerifRouter,
     let (got, leftover) = wire::split_responses(&real.written, &heads);
     let names: Vec<&str> = hist.iter().map(|&i| alpha[i].name).collect();
     // as in `check_history`: the session may go on after a parser refusal, or end right after it
-    let refusal_at = hist.iter().position(|&i| matches!(alpha[i].kind, "refused" | "malformed"));
+    let refusal_at = hist.iter().position(|&i| matches!(alpha[i].kind, "refused" | "malformed") && wire::status_of(&fresh[i]) >= 400);
     let judge = |ends_at: Option<usize>| {
         let mut expected: Vec<&Vec<u8>> = vec![];
         let mut closed_at = None;
@@ -197,8 +212,31 @@ pub fn run(ctx: &mut Ctx) {
     // only a real session that satisfies the oracle is then compared with the model - so a defect in the real loop is a
     // VIOLATION, and only a harness/model discrepancy is a machinery failure.
     let tcp_fresh: Vec<Vec<u8>> = alpha.iter().map(|r| tcp.run(&router, &[r.bytes.clone()]).map(|o| o.written).unwrap_or_default()).collect();
-    for (i, r) in alpha.iter().enumerate() { if tcp_fresh[i] != fresh[i] { ctx.machinery_error(format!("fresh response of `{}` differs between the model and the real session", r.name)); } }
-    if !ctx.machinery_errors.is_empty() { return }
+    // The in-memory loop model is Request::read + Router::handle + Response::send in the shape of Session::manage.  If the real
+    // session does something the model cannot know (it adds a header, ends sessions on other grounds ...), the model is no
+    // basis for verdicts: the property is then decided on the real session alone, over loopback TCP, to a smaller depth.
+    let model_conforms = alpha.iter().enumerate().all(|(i, _)| tcp_fresh[i] == fresh[i]);
+    if !model_conforms {
+        let which: Vec<&str> = alpha.iter().enumerate().filter(|(i, _)| tcp_fresh[*i] != fresh[*i]).map(|(_, r)| r.name).collect();
+        let tcp_len = if quick { 3 } else { 4 };
+        for len in 1..=tcp_len {
+            let total = n.pow(len as u32);
+            for code0 in 0..total {
+                let mut code = code0; let mut h = vec![]; for _ in 0..len { h.push(code % n); code /= n; }
+                if !ctx.mine() { continue }
+                if ctx.out_of_time() { break }
+                if !check_history_tcp(ctx, &router, &tcp, &alpha, &tcp_fresh, &h) {
+                    let collision = h.len() >= 2 && h.windows(2).any(|w| alpha[w[0]].kind != "plain" || alpha[w[0]].bytes.len() > alpha[w[1]].bytes.len());
+                    ctx.pass(&format!("real-session-only:len{}", h.len()), h.len() >= 2, collision);
+                }
+                ctx.states += 1; ctx.traces_validated += 1;
+            }
+        }
+        ctx.extra.insert("mode".into(), json!(format!("real session only: the in-memory session model does not reproduce the real session on fresh connections ({which:?}); every history up to length {tcp_len} was run against Session::manage over loopback TCP")));
+        ctx.extra.insert("rule".into(), json!("case = sequence of requests on one real connection (loopback TCP, lock-step), one segment per request; non-trivial = length >= 2"));
+        ctx.extra.insert("bounds".into(), json!({"alphabet": alpha.iter().map(|r| r.name).collect::<Vec<_>>(), "max_length": tcp_len, "transport": "tcp only"}));
+        return
+    }
     for h in &hists {
         if h.len() == 3 && (h[0] + 2 * h[1] + 3 * h[2]) % 5 != 0 { continue } // thorough: one fifth of the length-3 histories
         if !ctx.mine() { continue }
@@ -206,10 +244,11 @@ pub fn run(ctx: &mut Ctx) {
         let segments: Vec<Vec<u8>> = h.iter().map(|&i| alpha[i].bytes.clone()).collect();
         match wire::conform(&router, &tcp, &segments) {
             Ok(()) => ctx.traces_validated += 1,
-            Err(e) => ctx.machinery_error(format!("session-loop model does not conform to Session::manage on history {:?}: {e}", h.iter().map(|&i| alpha[i].name).collect::<Vec<_>>())),
+            // the real session satisfied the oracle on this history and the model behaves differently: the model (not the code) is off.
+            // Model-based verdicts beyond the TCP-checked lengths are then not claimed (capped), violations are confirmed on the real session.
+            Err(e) => { ctx.capped = true; ctx.extra.insert("model_nonconforming".into(), json!(format!("history {:?}: {e}", h.iter().map(|&i| alpha[i].name).collect::<Vec<_>>()))); }
         }
     }
-    if !ctx.machinery_errors.is_empty() { return }
     // the enumeration
     for len in 1..=max_len {
         let total = n.pow(len as u32);
